@@ -192,6 +192,11 @@ structure SwSt where
   ms : List Char := []
   cfg : SwarmCfg := ⟨3, 10⟩
   thr : Float := 0.9
+  /-- `step_timeout` (token of the `swarm` / `sset to` line: None, 0, 1 us, 1 s, 1 h, the largest timedelta, -1 s) and
+      the clock in microseconds (1 ms per step, 10 s more per slow step).  Both are part of the environment the
+      callbacks and the caller control; `supervise` / `_run_worker` read neither. -/
+  timeout : String := "n"
+  clock : Nat := 0
   /-- `worker.memory.output_history` per worker object (the factory may hand out the same object again) -/
   mem : List (Nat × List String) := []
 
@@ -199,6 +204,8 @@ def stepOut (item : Char) (g : Nat) : Out String :=
   match item with
   | 'a' => .ok "aaa" | 'b' => .ok "bbb" | 'c' => .ok "ccc"
   | 'S' => .ok "SUCCESS"
+  -- slow steps (`t`: a fresh output, `q`: "aaa", `Q`: a marker): the step moves every clock by 10 s (`SwSt.clock`)
+  | 'q' => .ok "aaa" | 'Q' => .ok "SUCCESS"
   | 'd' => .ok s!"all done <{g}>"
   | 'F' => .ok "FiNiShEd"
   | 'o' => .ok "it is solved"
@@ -252,7 +259,8 @@ def swarmAdvD : SwarmAdv SwSt Nat String (List Nat) Nat String where
       | [] => []
       | _ => s.ss.getD (min (s.spawn - 1) (s.ss.length - 1)) []
     let item := pick script s.step 'u'
-    let s' := { s with step := s.step + 1, g := s.g + 1 }
+    let s' := { s with step := s.step + 1, g := s.g + 1,
+                       clock := s.clock + 1000 + (if item == 't' || item == 'q' || item == 'Q' then 10000000 else 0) }
     let s' := match stepOut item s.g with
       | .ok o => memAdd s' w o
       | .raise => s'
@@ -460,6 +468,9 @@ def toolLine (pk : Nat) (log : List (TLog Nat TRes)) (bases : List (List Nat)) (
   let bases' := bases ++ List.replicate (r.1.length - log.length) (baseOf pk)
   (r.1, bases', showTool (baseOf pk) (r.1.zip bases') r.2.2 ++ " ## " ++ toolTags cfg r.2.2)
 
+/-- `step_timeout` tokens: None, 0, 1 us, 1 s, 1 h, `timedelta.max`, -1 s -/
+def timeoutToks : List String := ["n", "0", "u", "s", "h", "M", "g"]
+
 def stepSlot (st : DSt) (toks : List String) : DSt × String :=
   match toks with
   | ["heal", mr, decay, _mode, gs, fs] =>      -- a fresh loop object, one call
@@ -480,6 +491,12 @@ def stepSlot (st : DSt) (toks : List String) : DSt × String :=
   | ["swarm", mr, ms, thr] =>
     ({ st with ss := { cfg := ⟨limD mr Loops.Gen.defaultMaxRegenerations, limD ms Loops.Gen.defaultMaxSteps⟩,
                        thr := floatD thr 0.9 }, sw := ⟨0, [], []⟩ }, "ok")
+  | ["swarm", mr, ms, thr, to] =>
+    if !(timeoutToks.contains to) then (st, "bad-op") else
+    ({ st with ss := { cfg := ⟨limD mr Loops.Gen.defaultMaxRegenerations, limD ms Loops.Gen.defaultMaxSteps⟩,
+                       thr := floatD thr 0.9, timeout := to }, sw := ⟨0, [], []⟩ }, "ok")
+  | ["sset", "to", v] =>
+    if timeoutToks.contains v then ({ st with ss := { st.ss with timeout := v } }, "ok") else (st, "bad-op")
   | ["sset", "mreg", v] => ({ st with ss := { st.ss with cfg := ⟨limA v, st.ss.cfg.maxSteps⟩ } }, "ok")
   | ["sset", "ms", v] => ({ st with ss := { st.ss with cfg := ⟨st.ss.cfg.maxRegen, limA v⟩ } }, "ok")
   | ["sset", "thr", v] => ({ st with ss := { st.ss with thr := floatOf v } }, "ok")
